@@ -207,33 +207,62 @@ def check(program: Program, run: Run) -> None:
             for t in s.targets:
                 if isinstance(t, ast.Name):
                     src_text[t.id] = s.value
-    avail = src_text.get("available_tables")
-    crit = src_text.get("criterion_tables")
-    miss = src_text.get("missing_tables")
-    if avail is None or crit is None or miss is None:
-        # fall back to structural search: a set difference feeding the raise test
-        raise AnalysisError("anchor vanished: JoinOn.validate no longer names criterion/available/missing table sets")
-    names = {n.id for n in ast.walk(avail) if isinstance(n, ast.Name)}
-    checks = [
-        ("base tables parameter", params[0] in names if params else False),
-        ("existing joins' items", len(params) > 1 and params[1] in names and any(isinstance(n, ast.Attribute) and n.attr == "item" for n in ast.walk(avail))),
-        ("item being joined", "item" in self_reads(avail, jv.params[0])),
-    ]
-    for label, ok in checks:
-        run.ob("C14/R2 source reaches the availability set", f"JoinOn.validate:{label}", ok, where=jv.loc())
-        if not ok:
-            run.finding(f"C14/availability-missing:JoinOn.validate:{label}", f"JoinOn.validate does not add the {label} to the available tables: valid join conditions referring to it are rejected", where=jv.loc(), rule="R2")
-    allfields = any(isinstance(n, ast.Call) and isinstance(n.func, ast.Attribute) and n.func.attr == "fields_" for n in ast.walk(crit)) and not any(
-        isinstance(n, ast.comprehension) and n.ifs for n in ast.walk(crit))
-    run.ob("C14/R2 criterion tables come from all fields of the criterion", "JoinOn.validate", allfields, where=jv.loc())
-    if not allfields:
-        run.finding("C14/criterion-tables-partial:JoinOn.validate", "JoinOn.validate does not take the tables of all fields of the criterion", where=jv.loc(), rule="R2")
-    diff = isinstance(miss, ast.BinOp) and isinstance(miss.op, ast.Sub) and isinstance(miss.left, ast.Name) and miss.left.id == "criterion_tables" \
-        and isinstance(miss.right, ast.Name) and miss.right.id == "available_tables"
-    iff = any(isinstance(n, ast.If) and isinstance(n.test, ast.Name) and n.test.id == "missing_tables" and any(isinstance(x, ast.Raise) for x in n.body) for n in ast.walk(jv.node))
-    run.ob("C14/R2 JoinException raised iff criterion tables minus available tables is non-empty", "JoinOn.validate", diff and iff, where=jv.loc())
-    if not (diff and iff):
-        run.finding("C14/join-check-shape:JoinOn.validate", "JoinOn.validate no longer raises exactly when (criterion tables - available tables) is non-empty", where=jv.loc(), rule="R2")
+
+    def expand_all(e, depth=0):
+        """substitute local single-assignment names by their defining expressions (names are not relied upon)"""
+        if depth > 6:
+            return e
+
+        class Sub(ast.NodeTransformer):
+            def visit_Name(self, n):
+                if isinstance(n.ctx, ast.Load) and n.id in src_text and n.id not in jv.params:
+                    return expand_all(src_text[n.id], depth + 1)
+                return n
+        import copy as _copy
+        return Sub().visit(_copy.deepcopy(e))
+
+    raising = [n for n in ast.walk(jv.node) if isinstance(n, ast.If) and any(isinstance(x, ast.Raise) for b in n.body for x in ast.walk(b))]
+    if not raising:
+        raise AnalysisError("anchor vanished: JoinOn.validate has no guarded raise")
+    test = expand_all(raising[0].test)
+    shape = isinstance(test, ast.BinOp) and isinstance(test.op, ast.Sub)
+    run.ob("C14/R2 JoinException raised iff criterion tables minus available tables is non-empty", "JoinOn.validate", shape, where=jv.loc(raising[0]),
+           detail=ast.unparse(test)[:160])
+    if not shape:
+        run.finding("C14/join-check-shape:JoinOn.validate", "JoinOn.validate no longer raises exactly when (criterion tables - available tables) is non-empty: "
+                    f"the guarded raise tests `{ast.unparse(test)[:120]}`", where=jv.loc(raising[0]), rule="R2")
+    else:
+        crit, avail = test.left, test.right
+        names = {n.id for n in ast.walk(avail) if isinstance(n, ast.Name)}
+        checks = [
+            ("base tables parameter", params[0] in names if params else False),
+            ("existing joins' items", len(params) > 1 and params[1] in names and any(isinstance(n, ast.Attribute) and n.attr == "item" for n in ast.walk(avail))),
+            ("item being joined", "item" in self_reads(avail, jv.params[0])),
+        ]
+        for label, ok in checks:
+            run.ob("C14/R2 source reaches the availability set", f"JoinOn.validate:{label}", ok, where=jv.loc())
+            if not ok:
+                run.finding(f"C14/availability-missing:JoinOn.validate:{label}", f"JoinOn.validate does not add the {label} to the available tables: valid join conditions referring to it are rejected", where=jv.loc(), rule="R2")
+        # the left operand must be the sources of ALL fields of the criterion: {f.table for f in criterion.fields_()} --
+        # a helper that filters by source class (tables_ = find_(Table)) drops fields of subqueries / CTE references
+        fcalls = [n for n in ast.walk(crit) if isinstance(n, ast.Call) and isinstance(n.func, ast.Attribute) and n.func.attr == "fields_"
+                  and "criterion" in self_reads(n.func.value, jv.params[0])]
+        takes_table = any(isinstance(n, ast.Attribute) and n.attr == "table" for n in ast.walk(crit))
+        filtered = any(isinstance(n, ast.comprehension) and n.ifs for n in ast.walk(crit))
+        find_field = any(isinstance(n, ast.Call) and isinstance(n.func, ast.Attribute) and n.func.attr == "find_" and n.args
+                         and isinstance(n.args[0], ast.Name) and n.args[0].id == "Field" for n in ast.walk(crit))
+        narrowed = any(isinstance(n, ast.Attribute) and n.attr == "tables_" for n in ast.walk(crit)) or any(
+            isinstance(n, ast.Call) and isinstance(n.func, ast.Attribute) and n.func.attr == "find_" and n.args
+            and not (isinstance(n.args[0], ast.Name) and n.args[0].id == "Field") for n in ast.walk(crit))
+        allfields = (bool(fcalls) or find_field) and takes_table and not filtered and not narrowed
+        if not allfields and not (filtered or narrowed or ((bool(fcalls) or find_field) and not takes_table)):
+            # neither the confirmed idiom nor a recognised narrowing: an unknown way of collecting sources is not judged
+            raise AnalysisError(f"unsupported construct: JoinOn.validate collects criterion sources by `{ast.unparse(crit)[:100]}`")
+        run.ob("C14/R2 criterion tables come from all fields of the criterion", "JoinOn.validate", allfields, where=jv.loc(raising[0]), detail=ast.unparse(crit)[:120])
+        if not allfields:
+            run.finding("C14/criterion-tables-partial:JoinOn.validate", "JoinOn.validate does not take the sources of all fields of the criterion "
+                        f"(left operand of the difference is `{ast.unparse(crit)[:100]}`, not the .table of every criterion.fields_() entry): "
+                        "fields of a subquery or CTE reference that is not in scope are no longer reported", where=jv.loc(raising[0]), rule="R2")
 
     # ---- R3: inherited obligations from C17
     from . import c17
